@@ -59,6 +59,7 @@ static void g2def_run(Ctx& c) {
                                                             p.Ops->getCreationOperator((Pomerol::ParticleIndex)q[2]), p.Ops->getCreationOperator((Pomerol::ParticleIndex)q[3]), *p.DM); };
         std::unique_ptr<Pomerol::TwoParticleGF> A(mk()), B(mk()), C(mk());
         A->prepare(); A->compute();
+        if (c.k % 2 == 1) { A->compute(); A->prepare(); A->compute(false, freqs); }   // repeated calls on a computed object must change nothing
         B->prepare(); std::vector<Pomerol::ComplexType> tabB = B->compute(false, freqs);
         C->prepare(); std::vector<Pomerol::ComplexType> tabC = C->compute(true, freqs);
         for (size_t pp = 0; pp < A->parts.size(); ++pp) { nres += (long)A->parts[pp]->getNumResonantTerms(); nnonres += (long)A->parts[pp]->getNumNonResonantTerms(); }
